@@ -108,6 +108,16 @@ theorem C01_listener_terminal_transition_completes (F : Hook → LCfg → LCfg) 
     (transitionToL F l s).c.st = s ∨ (transitionToL F l s).c.st.label = .excepted :=
   transitionToL_terminal l s ht
 
+/-- NOT proved — **with the empty plan the model with listeners is the model**: the `…L` twins repeat the functions of
+`PM/Model.lean` with the oracle consulted at the notification points, so with no plan entry every event should have exactly the
+effect and return value it has in `PMF.step`.  A proof needs, besides one equation per twin, an invariant of the old model that its
+`runAction` relies on silently (a pending pause action that is run with a next state is still the pause alias: the real code's
+"retracted while transitioning" test, present in `runActionL`, never fires without listeners).  It is CHECKED instead: every case of
+the main stream of every process-control check is sent to both drivers (`pmodel pm`, `pmodel pml`) and the outputs must be identical
+(`harness/pm.py`, `explore`, stream `twin`). -/
+def C01_listener_conservative : Prop :=
+  ∀ (P : Prog) (nf : Nat) (evs : List Ev), (runL P (initL nf []) evs).c = run P (init nf) evs
+
 -- non-vacuity: a kill from `on_process_running` ends KILLED through legal edges; a late play on a process that was killed while
 -- paused notifies `on_process_played`, whose listener kills and pauses: nothing changes
 example : (runL sync2 (initL 0 [(.running, 1, .kill)]) [.tick]).c.entered = [.killed, .running, .created] := by decide +kernel
